@@ -85,11 +85,13 @@ open Dos.Bn256 in
 def keccakScalar (msg : Bytes) : Nat := beNat (Keccak.keccak256 msg) % r
 
 open Dos.Bn256 in
-/-- G1 concrete; a G2 element is represented by its discrete log w.r.t. g₂; e(P, x) = x•P ∈ G1 -/
+/-- G1 concrete; a G2 element is represented by its discrete log x < r w.r.t. g₂; e(P, x) = x•P ∈ G1.
+`Props/C06.lean` `evalOps_isPairing` proves that this instance satisfies the hypotheses of the generic
+theorems (with the group structure of `E(F_p)` transported along `Compose.pt1`). -/
 def evalOps : BlsOps G1 Nat G1 where
   isInf1 := fun P => P == .inf
-  isInf2 := fun x => x % r == 0
-  miller := fun x P => G1.smul (x % r) P
+  isInf2 := fun x => x == 0            -- the drivers pass discrete logs already reduced mod r
+  miller := fun x P => G1.smul x P
   one := .inf
   mul := G1.add
   finalIsOne := fun P => P == .inf
